@@ -3332,7 +3332,9 @@ BOUNDED = [
     {"what": "native replay (replay/C18.py): random libraries of depth <= 3, <= 6 items per folder, page sizes 1..4, 10 fault kinds at "
              "every request index of 5+5 listings, 12 x 10 healthy filtered listings, 432 boundary (timestamp, bound) pairs",
      "role": "witness search and validation of the assumed models; since round 4 also the BOUNDED obligation `native-listing-suite` "
-             "(12 fault kinds incl. empty bodies, folder timestamps, percent-escape folder names), counted as bounded-ok, never as discharged"},
+             "(12 fault kinds incl. empty bodies, folder timestamps, percent-escape folder names; round 6: paging links with query "
+             "strings, read() failing after the response was handed out, 15 crafted path-pattern sets, request-error fields), "
+             "counted as bounded-ok, never as discharged"},
 ]
 
 # path pruning only: an undecided feasibility query keeps the path (sound); short budgets keep generation fast on
